@@ -160,6 +160,9 @@ func (s *Server) SemanticTokensFull(ctx context.Context, params *protocol.Semant
 	}
 
 	if doc == "" {
+		// The client now holds an empty array without a result id: forget the
+		// previous result so that a later delta request with its id gets a full reply.
+		tokenCache.delete(params.TextDocument.URI)
 		return &protocol.SemanticTokens{Data: []uint32{}}, nil
 	}
 
@@ -199,6 +202,7 @@ func (s *Server) SemanticTokensFullDelta(ctx context.Context, params *protocol.S
 	}
 
 	if doc == "" {
+		tokenCache.delete(params.TextDocument.URI)
 		return &protocol.SemanticTokens{Data: []uint32{}}, nil
 	}
 
